@@ -36,7 +36,9 @@ def bounds(tier, seed):
 
 
 class Env:
-    def __init__(self, fail_at=None, exc_type=None):
+    def __init__(self, fail_at=None, exc_type=None, persistent=False):
+        self.persistent = persistent      # every invocation from fail_at on fails, each with a fresh exception object
+        self.first = None
         self.n = 0
         self.fail_at = fail_at
         self.exc_type = exc_type
@@ -47,8 +49,10 @@ class Env:
         i = self.n
         self.n += 1
         self.kinds.append(kind)
-        if i == self.fail_at:
+        if i == self.fail_at or (self.persistent and self.fail_at is not None and i > self.fail_at):
             self.raised = self.exc_type('injected fault #%d in %s' % (i, kind))
+            if self.first is None:
+                self.first = self.raised
             raise self.raised
 
 
@@ -309,6 +313,21 @@ def check_case(T, case, pairs=False):
                 T.violation('faults', 'global-state-changed', cs, detail='library-global state differs after the failed call')
                 snap0 = c11.snap_digest(c11.global_snapshot(subclasses=False))
             T.outcome((e0.kinds[i], type(exc).__name__ if exc else None))
+    # a device that keeps failing: from invocation i on every read / write / flush / callback raises (a fresh object each
+    # time); the caller must get the FIRST exception, whatever the library touches while that one propagates
+    for i in range(N):
+        T.evaluations += 1
+        T.nontrivial += 1
+        cs = {'case': list(case), 'fail_at': i, 'kind': e0.kinds[i], 'exception': 'Boom', 'persistent': True}
+        env = Env(i, Boom, persistent=True)
+        got, exc = r.run(env)
+        if exc is None or exc is not env.first:
+            T.violation('faults', 'first-exception-replaced', cs, detail='everything fails from invocation %d (%s) on; the first exception was %r, the caller got %r' % (i, e0.kinds[i], env.first, exc))
+        if not is_prefix(got, base):
+            T.violation('faults', 'delivered-not-a-prefix', cs, detail='delivered before the fault: %.200r; fault-free run delivers %.200r' % (got, base))
+        nxt, exc2 = r.run(Env())
+        if exc2 is not None or nxt != base:
+            T.violation('faults', 'next-call-affected', cs, detail='after the failed call the same case fault-free gives %.200r (exception %r)' % (nxt, exc2))
     if pairs:
         # fault sequences of length two (thorough): the call fails at i, the retry fails at j, then the third call must succeed
         for i in range(N):
